@@ -97,7 +97,11 @@ func (b *Block) ToBytes() []byte {
 	var viewBuf [8]byte
 	binary.LittleEndian.PutUint64(viewBuf[:], uint64(b.view))
 	buf = append(buf, viewBuf[:]...)
-	buf = append(buf, b.batch.Marshal()...) // may panic
+	cmds := b.batch.Marshal() // may panic
+	// the batch is followed by the bytes of the certificate: say where it ends, or the end of the batch
+	// can be read as the beginning of the certificate and another block has the same bytes
+	buf = binary.LittleEndian.AppendUint64(buf, uint64(len(cmds)))
+	buf = append(buf, cmds...)
 	buf = append(buf, b.cert.ToBytes()...)
 	var tsBuf [8]byte
 	binary.LittleEndian.PutUint64(tsBuf[:], uint64(b.ts.UnixNano()))
